@@ -185,9 +185,20 @@ def h_fill(ctx, sizes, bufs):
         ctx.witness("word-fill" if is_word else "byte-fill")
         got = mem.load(t)
         want = _mix(t)
-        for i in range(size):
-            b = ((value >> (8 * (i % 4))) & 0xff) if is_word else value
-            want = ite(t == addr + i, b, want)
+        if size <= 32:
+            for i in range(size):
+                b = ((value >> (8 * (i % 4))) & 0xff) if is_word else value
+                want = ite(t == addr + i, b, want)
+        else:
+            # the same as one term (large regions)
+            off = t - addr
+            b = value
+            if is_word:
+                b = ite(off % 4 == 0, value & 0xff,
+                        ite(off % 4 == 1, (value >> 8) & 0xff,
+                            ite(off % 4 == 2, (value >> 16) & 0xff,
+                                (value >> 24) & 0xff)))
+            want = ite(sand(t >= addr, t < addr + size), b, want)
         ctx.prove(got == want, "memory-fill-wrong-bytes",
                   (addr, size, value, t, got, want))
     ctx.prove(set(machine.memories) <= {(X, Y)}, "memory-other-chip-touched")
@@ -457,6 +468,12 @@ def units(tier, seed):
                    dict(sizes=(0, 3, 4, 8, 12) if q else tuple(range(0, 17)),
                         bufs=(8,) if q else (4, 8)), split=4,
                    witnesses=("word-fill", "byte-fill")))
+    # regions larger than one buffer and than any small-size special case
+    us.append(Unit("fill large", h_fill,
+                   dict(sizes=(259, 516) if q else (259, 516, 1001, 1024),
+                        bufs=(256,)), split=3,
+                   witnesses=("word-fill", "byte-fill"),
+                   path_timeout_s=300, timeout_ms=300000))
     us.append(Unit("link", h_link,
                    dict(words=(0, 1, 3) if q else (0, 1, 2, 3, 5),
                         bufs=(6, 8) if q else (4, 6, 8, 13)), split=4,
